@@ -152,6 +152,7 @@ func c07Random(r interface{ Intn(int) int }) lifeSc {
 	if r.Intn(8) == 0 {
 		sc.Second = []string{"idle", "busy"}[r.Intn(2)]
 	}
+	sc.ConnectTo = r.Intn(4) == 0
 	return sc
 }
 
